@@ -131,6 +131,12 @@ class SyncInterpreter(BaseInterpreter[TContext, TEvent]):
         # ⚙️ Initialize synchronous-specific attributes
         self._event_queue: Deque[Union[Event, DoneEvent, AfterEvent]] = deque()
         self._is_processing: bool = False
+        #: Guards the queue together with `_is_processing`. Timer, delayed-send
+        #: and actor threads call `send()` concurrently with the caller; "is a
+        #: drain running?" and "the queue is empty, stop draining" must each be
+        #: one atomic step or an event is left behind in the queue. Held only
+        #: for queue bookkeeping, never while user code runs.
+        self._queue_lock = threading.Lock()
         self._after_threads: Dict[str, threading.Thread] = {}
         self._after_events: Dict[str, threading.Event] = {}
         #: Cancellation flags for pending delayed sends, released by `stop()`.
@@ -317,9 +323,10 @@ class SyncInterpreter(BaseInterpreter[TContext, TEvent]):
             return
 
         event_obj = self._prepare_event(event_or_type, **payload)
-        if self._is_processing:
-            self._chained_sends += 1
-        self._event_queue.append(event_obj)
+        with self._queue_lock:
+            if self._is_processing:
+                self._chained_sends += 1
+            self._event_queue.append(event_obj)
         self._process_event_queue()
 
     def send_events(
@@ -332,9 +339,9 @@ class SyncInterpreter(BaseInterpreter[TContext, TEvent]):
             )
             return
 
-        for event_or_type in events:
-            event_obj = self._prepare_event(event_or_type)
-            self._event_queue.append(event_obj)
+        prepared = [self._prepare_event(e) for e in events]
+        with self._queue_lock:
+            self._event_queue.extend(prepared)
 
         self._process_event_queue()
 
@@ -344,10 +351,10 @@ class SyncInterpreter(BaseInterpreter[TContext, TEvent]):
         If event processing is already underway, this method returns immediately
         to prevent re-entrant execution.
         """
-        if self._is_processing:
-            return
-
-        self._is_processing = True
+        with self._queue_lock:
+            if self._is_processing:
+                return
+            self._is_processing = True
         # 🛟 Bound the macrostep. The `raise` built-in re-enters this queue, so
         #    an action that raises its own trigger event feeds itself forever.
         #    `max_iterations` previously guarded only the eventless (`always`)
@@ -363,29 +370,37 @@ class SyncInterpreter(BaseInterpreter[TContext, TEvent]):
         self._chained_sends = 0
         limit = getattr(self.machine, "max_iterations", 1000)
         try:
-            while self._event_queue:
-                # 🏁 The machine may complete, fail or be stopped by the event
-                #    just processed. Whatever is still queued (events raised
-                #    earlier in the same macrostep, a pending `done.state`)
-                #    must not run user code on a finished machine — the async
-                #    engine's run loop stops at the same point.
-                if self.status != "running":
-                    self._event_queue.clear()
-                    break
-                if self._chained_sends > limit:
-                    logger.error(
-                        "🛑 Exceeded %d queued events in a single macrostep on "
-                        "'%s'. This usually means an action raises the event "
-                        "that triggers it. Discarding %d pending event(s).",
-                        limit,
-                        self.id,
-                        len(self._event_queue),
-                    )
-                    self._event_queue.clear()
-                    self._chained_sends = 0
-                    break
-
-                current_event = self._event_queue.popleft()
+            while True:
+                with self._queue_lock:
+                    # 🏁 The machine may complete, fail or be stopped by the
+                    #    event just processed. Whatever is still queued (events
+                    #    raised earlier in the same macrostep, a pending
+                    #    `done.state`) must not run user code on a finished
+                    #    machine — the async engine's run loop stops at the
+                    #    same point.
+                    if self.status != "running":
+                        self._event_queue.clear()
+                    elif self._chained_sends > limit:
+                        logger.error(
+                            "🛑 Exceeded %d queued events in a single "
+                            "macrostep on '%s'. This usually means an action "
+                            "raises the event that triggers it. Discarding %d "
+                            "pending event(s).",
+                            limit,
+                            self.id,
+                            len(self._event_queue),
+                        )
+                        self._event_queue.clear()
+                        self._chained_sends = 0
+                    if not self._event_queue:
+                        # 🔒 Seeing the queue empty and giving up the drain is
+                        #    ONE step: a sender arriving later finds the flag
+                        #    down and drains its own event. Done separately, an
+                        #    event appended in between stayed queued after
+                        #    every thread had returned.
+                        self._is_processing = False
+                        break
+                    current_event = self._event_queue.popleft()
                 logger.info("⚙️ Processing event: '%s'", current_event.type)
 
                 for plugin in self._plugins:
@@ -393,9 +408,13 @@ class SyncInterpreter(BaseInterpreter[TContext, TEvent]):
 
                 self._process_event(current_event)
                 self._process_transient_transitions()
-        finally:
+        except BaseException:
+            # 📝 Only the failing path resets the flag here: on the normal
+            #    path it was released under the lock above, and another
+            #    thread may rightfully hold it again by now.
             self._is_processing = False
-            logger.debug("🎉 Event processing cycle completed. Queue empty.")
+            raise
+        logger.debug("🎉 Event processing cycle completed. Queue empty.")
 
     # -------------------------------------------------------------------------
     # ⚙️ Core State Transition Logic (Private)
@@ -1287,11 +1306,16 @@ class SyncInterpreter(BaseInterpreter[TContext, TEvent]):
         # 🧹 Drop notifications of this activation that are already queued —
         #    see `Interpreter._cancel_state_tasks`.
         if (state.after or state.invoke) and self._event_queue:
-            self._event_queue = deque(
-                e
-                for e in self._event_queue
-                if not self._is_stale_notification(e, state)
-            )
+            with self._queue_lock:
+                kept = [
+                    e
+                    for e in self._event_queue
+                    if not self._is_stale_notification(e, state)
+                ]
+                # 📝 In place: a concurrent sender holds a reference to this
+                #    very deque.
+                self._event_queue.clear()
+                self._event_queue.extend(kept)
 
         # 🤖 Stop child machines this state invoked. Only `after` timers were
         #    cancelled here, so an invoked child actor kept running (with its
